@@ -270,20 +270,35 @@ def quiet_logging() -> None:
 
 
 def run_program(case) -> str:
+    """case["debug"] (optional): run with Deferred debugging switched on (defer.setDebugging(True), what trial --debug
+    does); the observation must not depend on it (debugging adds text to messages, not behaviour)"""
     quiet_logging()
-    with warnings.catch_warnings():
-        warnings.simplefilter("ignore")
-        r = Runner(case["canc"])
-        evs = [r.op(o) for o in case["ops"]]
-        obs = " ".join(evs) + " | " + r.final()
-        # consume failures so that nothing is reported at garbage collection
-        for d in r.ds:
-            if d.called and not d.paused and not isinstance(getattr(d, "result", None), r.defer.Deferred):
-                try:
-                    d.addErrback(lambda f: None)
-                except BaseException:  # noqa: B036 - stranded callbacks of a broken tree may run (and raise) here
-                    pass
-        return obs
+    from twisted.internet import defer
+
+    old = defer.getDebugging()
+    if case.get("debug"):
+        defer.setDebugging(True)
+    try:
+        with warnings.catch_warnings():
+            warnings.simplefilter("ignore")
+            r = Runner(case["canc"])
+            evs = [r.op(o) for o in case["ops"]]
+            obs = " ".join(evs) + " | " + r.final()
+            # consume failures so that nothing is reported at garbage collection
+            for d in r.ds:
+                if d.called and not d.paused and not isinstance(getattr(d, "result", None), r.defer.Deferred):
+                    try:
+                        d.addErrback(lambda f: None)
+                    except BaseException:  # noqa: B036 - stranded callbacks of a broken tree may run (and raise) here
+                        pass
+            return obs
+    finally:
+        defer.setDebugging(old)
+
+
+def with_debug(cases, rng, fraction):
+    """a sample of the cases once more under Deferred debugging"""
+    return [{**c, "debug": True} for c in cases if rng.random() < fraction]
 
 
 # ---------------------------------------------------------------------------------------------------
